@@ -274,6 +274,7 @@ int run_case(Reader& r, bool& nontrivial, std::string& desc) {
     bool vs_env = r.below(8) == 1;                                  // Visual Studio location format file(line)
     bool junit_v = use_runner && verbosity && !sepproc && r.below(3) == 1;   // -ojunit -v: composite of JUnit (files stubbed) and console
     bool crash_f = use_runner && !sepproc && r.below(8) == 1;      // -f with a crash method that returns
+    uint32_t bystanders = r.below(3) == 1 ? r.below(64) : 0;       // other plugins in the chain (bits 0..2 present, bits 3..5 disabled)
     int n = 1 + (int)r.below(24);
     int mode = (int)r.below(6);          // 0..3 free scripts, 4/5 uniform program: every test carries the same script (long runs of one failing kind)
     bool uniform = mode >= 4; TestSpec proto;
@@ -312,7 +313,13 @@ int run_case(Reader& r, bool& nontrivial, std::string& desc) {
 
     // ---- build registry
     TestRegistry reg; ProbePlugin probe;
+    // bystander plugins around the reporting one (installed before = behind it in the chain, after = in front of it), enabled or switched off
+    TestPlugin before1("BystanderA"), after1("BystanderB"), after2("BystanderC");
+    if (bystanders & 1) { if (bystanders & 8) before1.disable(); reg.installPlugin(&before1); }
     reg.installPlugin(&probe);
+    if (bystanders & 2) { if (bystanders & 16) after1.disable(); reg.installPlugin(&after1); }
+    if (bystanders & 4) { if (bystanders & 32) after2.disable(); reg.installPlugin(&after2); }
+    if (bystanders & 7) verif::cls((bystanders & 56 & ((bystanders & 7) << 3)) ? "bystander plugins, some disabled" : "bystander plugins");
     std::vector<std::unique_ptr<UtestShell>> owned;
     for (int t = 0; t < n; t++) {
         TestSpec& s = g_prog[t];
